@@ -54,3 +54,61 @@ EXPLANATIONS = {
     'C15': 'make_segment raises ValueError only for an empty body or an out-of-range request; make_segments raises only for capacity < 12 and every capacity vrl-8 with vrl accepted by the writer is >= 12; write_logical_records cannot raise once the label is written and the chunk size accepted.',
     'C16': 'NoFormatFrameData._make_body_bytes == obname bytes ++ payload exactly (bytes, bytearray, or ASCII text), nothing appended.',
 }
+
+
+# ---------------------------------------------------------------------------------------------- C14: memoisation inventory
+# Every place where the library keeps a computed value beyond the call that computed it (functools.lru_cache / cache / cached_property).
+# Each one listed here has been analysed: what it is keyed on and whether a value can outlive the state it was computed from.  A
+# memoisation that is NOT listed is outside what the C14 contracts decide (the executor runs the function body and cannot see a cache
+# wrapped around it): the C14 check then reports the property as UNDECIDED (exit 2) - never as held, and never as a violation.
+MEMOISATION_ANALYSED = {
+    'logical_record/core/eflr/eflr_item.py:EFLRItem.obname': 'cached_property; never invalidated - open finding c14_stale_obname',
+    'logical_record/core/logical_record/segment_attributes.py:ushort': 'lru_cache keyed on an int in 0..255 (sum of flag weights); value depends on the key only',
+    'utils/internal/struct_writer.py:write_struct': 'lru_cache keyed on (code, value); 1 / 1.0 / True collide - open finding c14_lru_cache_key_collision',
+}
+
+
+def memoisation_inventory(root):
+    """(file:qualified name) of every function or method decorated with lru_cache / cache / cached_property under `root` (tests excluded)"""
+    import ast
+    import os
+    found = {}
+    for dp, dn, fn in sorted(os.walk(root)):
+        if os.sep + 'tests' in dp + os.sep:
+            continue
+        for f in sorted(fn):
+            if not f.endswith('.py'):
+                continue
+            path = os.path.join(dp, f)
+            try:
+                tree = ast.parse(open(path).read())
+            except SyntaxError:
+                continue
+            def walk(node, prefix):
+                for ch in ast.iter_child_nodes(node):
+                    if isinstance(ch, (ast.FunctionDef, ast.AsyncFunctionDef)):
+                        for d in ch.decorator_list:
+                            txt = ast.unparse(d)
+                            if any(w in txt for w in ('lru_cache', 'cached_property')) or txt.split('(')[0].split('.')[-1] == 'cache':
+                                found[f'{os.path.relpath(path, root)}:{prefix}{ch.name}'] = txt
+                        walk(ch, prefix + ch.name + '.')
+                    elif isinstance(ch, ast.ClassDef):
+                        walk(ch, prefix + ch.name + '.')
+                    else:
+                        walk(ch, prefix)
+            walk(tree, '')
+    return found
+
+
+def extra_c14(tier, seed, src):
+    inv = memoisation_inventory(src.root)
+    new = sorted(k for k in inv if k not in MEMOISATION_ANALYSED)
+    out = {'obligations': [{'key': 'memoisation-inventory:every-cache-in-the-library-is-one-that-was-analysed', 'function': 'inventory',
+                            'status': 'discharged' if not new else 'unknown', 'solver': 'syntactic'}],
+           'memoisation': {'found': inv, 'analysed': MEMOISATION_ANALYSED}}
+    if new:
+        out['undecided'] = [f'memoisation not analysed ({k} is wrapped in {inv[k]}): values may outlive the state they were computed from' for k in new]
+    return out
+
+
+EXTRAS = {'C14': extra_c14}
